@@ -7,6 +7,7 @@ import Dlismodel.Model.Seg
 import Dlismodel.Model.Parse
 import Dlismodel.Model.Eflr
 import Dlismodel.Model.ParseEflr
+import Dlismodel.Model.Iflr
 namespace Dlis
 
 def hexDigit (n : Nat) : Char := if n < 10 then Char.ofNat (48 + n) else Char.ofNat (87 + n)
@@ -153,6 +154,47 @@ def showDSet (d : DSet) : String :=
     s!"O{o.name.origin},{o.name.copy},{hexOrDash o.name.name}|" ++ ";".intercalate (o.attrs.map showDAttr))
   s!"ok type={hexOrDash d.type} name={nm} T[{t}] {os}"
 
+/-- canonical form of one decoded value (no spaces, commas, colons or semicolons inside) -/
+def showVal (rc : Nat) (b : Bytes) : String :=
+  let int (r : Option (Int × Bytes)) := match r with | some (v, []) => s!"i{v}" | _ => "?"
+  match rc with
+  | 12 => int (decS 1 b) | 13 => int (decS 2 b) | 14 => int (decS 4 b)
+  | 15 => int (decU 1 b) | 16 => int (decU 2 b) | 17 => int (decU 4 b)
+  | 18 => match decUvari b with | some (v, []) => s!"i{v}" | _ => "?"
+  | 26 => match decStatus b with | some (v, []) => s!"i{v}" | _ => "?"
+  | 2 => match rdN 4 b with | some (v, []) => s!"s{v}" | _ => "?"
+  | 7 => match rdN 8 b with | some (v, []) => s!"d{v}" | _ => "?"
+  | 19 => match decIdent b with | some (t, []) => s!"t{hexOrDash t}" | _ => "?"
+  | 27 => match decIdent b with | some (t, []) => s!"t{hexOrDash t}" | _ => "?"
+  | 20 => match decAscii b with | some (t, []) => s!"t{hexOrDash t}" | _ => "?"
+  | 21 => match decDtime b with
+    | some (v, []) => s!"T{v.y}.{v.tz}.{v.month}.{v.day}.{v.hour}.{v.minute}.{v.second}.{v.ms}" | _ => "?"
+  | 23 => match decObname b with | some (v, []) => s!"o{v.origin}.{v.copy}.{hexOrDash v.name}" | _ => "?"
+  | 24 => match decObjref b with
+    | some ((t, v), []) => s!"r{hexOrDash t}.{v.origin}.{v.copy}.{hexOrDash v.name}" | _ => "?"
+  | _ => "x" ++ hexOrDash b
+
+def showDAttrV : Option DAttr → String
+  | none => "~"
+  | some a => s!"{a.count}:{a.rc}:{hexOrDash a.units}:" ++
+      (if a.vals.isEmpty then "-" else ",".intercalate (a.vals.map (showVal a.rc)))
+
+def showDSetV (d : DSet) : String :=
+  let nm := match d.name with | some n => hexOrDash n | none => "~"
+  let t := " ".intercalate (d.template.map fun t => s!"{hexOrDash t.label}:{t.count}:{t.rc}:{hexOrDash t.units}")
+  let os := " ".intercalate (d.objects.map fun o =>
+    s!"O{o.name.origin},{o.name.copy},{hexOrDash o.name.name}|" ++ ";".intercalate (o.attrs.map showDAttrV))
+  s!"type={hexOrDash d.type} name={nm} T[{t}] {os}"
+
+/-- whole-file dump: every logical record, explicitly formatted ones decoded under the component grammar -/
+def dumpRecs (recs : List Rec) : String :=
+  " | ".intercalate (recs.map fun r =>
+    if r.isEflr then
+      match parseEflr r.body with
+      | some d => s!"E{r.type} " ++ showDSetV d
+      | none => s!"E{r.type} UNDECODABLE {hexOrDash r.body}"
+    else s!"I{r.type} {hexOrDash r.body}")
+
 def handle (ws : List String) : String :=
   match ws with
   | ["U", k, v] => match k.toNat?, v.toInt? with
@@ -244,6 +286,46 @@ def handle (ws : List String) : String :=
       | some recs => "ok " ++ (if recs.isEmpty then "-" else ";".intercalate (recs.map showRec))
       | none => "none"
     | _, _, _, _ => "bad"
+  | ["dump", vrl, seq, sid, h] =>
+    match vrl.toInt?, parseCps seq, parseCps sid, bytesOfHex h with
+    | some vrl, some seq, some sid, some bs =>
+      match readFile { vrl := vrl, seq := seq, setId := sid } bs with
+      | some recs => "ok " ++ dumpRecs recs
+      | none => "none"
+    | _, _, _, _ => "bad"
+  -- frame data: layout "size x count , ..." then the record body
+  | ["fdata", lay, h] =>
+    let lay? : Option (List (Nat × Nat)) := (lay.splitOn ",").mapM fun t =>
+      match t.splitOn "x" with
+      | [a, b] => match a.toNat?, b.toNat? with | some a, some b => some (a, b) | _, _ => none
+      | _ => none
+    match lay?, bytesOfHex h with
+    | some lay, some bs =>
+      match decFrameData lay bs with
+      | some (o, n, ss) => s!"ok {o.origin}.{o.copy}.{hexOrDash o.name} {n} " ++
+          ";".intercalate (ss.map fun es => ",".intercalate (es.map toString))
+      | none => "none"
+    | _, _ => "bad"
+  | ["nofmt", h] => match bytesOfHex h with
+    | some bs => match decNoFormat bs with
+      | some (o, p) => s!"ok {o.origin}.{o.copy}.{hexOrDash o.name} {hexOrDash p}" | none => "none"
+    | none => "bad"
+  -- model side of the IFLR encoders
+  | ["fbody", o, c, n, num, slots] =>
+    let sl? : Option (List Slot) := (if slots == "-" then some [] else (slots.splitOn ";").mapM fun t =>
+      match t.splitOn "x" with
+      | [a, es] => match a.toNat?, (if es == "" then some [] else (es.splitOn ",").mapM String.toNat?) with
+        | some a, some es => some { size := a, elems := es } | _, _ => none
+      | _ => none)
+    match o.toInt?, c.toInt?, parseCps n, num.toInt?, sl? with
+    | some o, some c, some n, some num, some sl => showRes (frameDataBody { origin := o, copy := c, name := n } num sl)
+    | _, _, _, _, _ => "bad"
+  | ["nbody", o, c, n, h] => match o.toInt?, c.toInt?, parseCps n, bytesOfHex h with
+    | some o, some c, some n, some p => showRes (noFormatBody { origin := o, copy := c, name := n } p)
+    | _, _, _, _ => "bad"
+  | ["peflrv", h] => match bytesOfHex h with
+    | some bs => match parseEflr bs with | some d => "ok " ++ showDSetV d | none => "none"
+    | none => "bad"
   | ["readsegs", vrl, seq, sid, h] =>
     match vrl.toInt?, parseCps seq, parseCps sid, bytesOfHex h with
     | some vrl, some seq, some sid, some bs =>
